@@ -313,7 +313,12 @@ deriving Repr
 
 def w64 (ptr v : Nat) : List Wr := [⟨0, (0, ptr / 4), v % M32⟩, ⟨0, (0, ptr / 4 + 1), v / M32 % M32⟩]
 def w32 (ptr v : Nat) : List Wr := [⟨0, (0, ptr / 4), v % M32⟩]
-def wgCount (g w : Nat) : Nat := (g + w - 1) % M32 / w
+/-- the work-group-count SGPR of both modes (repaired): `uint32((uint64(GridSize) + uint64(WorkgroupSize) - 1) /
+    uint64(WorkgroupSize))` — the ceiling division in 64 bits, truncated to the register -/
+def wgCount (g w : Nat) : Nat := (g + w - 1) % M64 / w % M32
+/-- before the repair: `(GridSize + uint32(WorkgroupSize) - 1) / uint32(WorkgroupSize)` in `uint32`
+    (the sum wraps for `GridSize > 2^32 − WorkgroupSize`) -/
+def wgCountOld (g w : Nat) : Nat := (g + w - 1) % M32 / w
 
 /-- the SGPR set-up; `advQ`, `advP` = how far the cursor moves for an enabled queue pointer /
     private segment size (the dispatcher of the timing CU: 8 and 4; the emulator before the
